@@ -13,6 +13,7 @@ import BB.Oracle.Notifier
 import BB.Oracle.Ctx
 import BB.Oracle.Workers
 import BB.Oracle.Worker
+import BB.Oracle.Attempt
 
 open BB.Oracle
 
@@ -25,7 +26,8 @@ def families : List (String × Fam) := [
   ("notifier", NotifierFam.fam),
   ("ctx", CtxFam.fam),
   ("workers", WorkersFam.fam),
-  ("worker", WorkerFam.fam)
+  ("worker", WorkerFam.fam),
+  ("attempt", AttemptFam.fam)
 ]
 
 structure OAcc (σ : Type) where
